@@ -6,6 +6,7 @@ package gosx
 import (
 	"fmt"
 	"go/types"
+	"os"
 	"strings"
 	"unsafe"
 
@@ -35,6 +36,7 @@ func init() {
 			i := fr.i
 			n := i.concInt(a[0])
 			v := i.ts.Var(16)
+			i.domains[int(v.val)] = int(n)
 			i.assume(lower(types.Bool, i.ts.Cmp(OpUlt, v, i.ts.Const(16, uint64(n)))))
 			return lower(types.Int, i.ts.ZExt(v, 64))
 		},
@@ -143,16 +145,29 @@ func init() {
 			tab := a[1].([]value)
 			switch s := a[0].(type) {
 			case sym:
-				t := i.asTerm64(s)
-				var acc *Term
-				for k := len(tab) - 1; k >= 0; k-- {
-					c := i.ts.Const(64, uint64(asInt64(tab[k])))
-					if acc == nil {
-						acc = c
-					} else {
-						acc = i.ts.Ite(i.ts.Cmp(OpEq, t, i.ts.Const(64, uint64(k))), c, acc)
-					}
+				var sel *Term
+				if s.t.op == OpZExt && s.t.a.w == 16 {
+					sel = s.t.a
+				} else {
+					sel = i.ts.Extract(i.asTerm64(s), 0, 16)
 				}
+				vals := make([]int64, len(tab))
+				for k := range tab {
+					vals[k] = asInt64(tab[k])
+				}
+				acc := i.selectInt(sel, vals)
+				if acc.IsConst() {
+					return int(acc.ConstVal())
+				}
+				if i.fdInts == nil {
+					i.fdInts = map[*Term]*fdIntInfo{}
+				}
+				info := &fdIntInfo{tab: make([]int64, len(tab))}
+				for k := range tab {
+					info.tab[k] = asInt64(tab[k])
+				}
+				info.sel = sel
+				i.fdInts[acc] = info
 				return lower(types.Int, acc)
 			default:
 				k := asInt64(s)
@@ -182,17 +197,17 @@ func init() {
 			fr.i.mapRev = a[0].(bool)
 			return nil
 		},
-		"Freeze":      vxFreeze,
-		"Unfreeze":    func(fr *frame, a []value) value { fr.i.frozen = nil; return nil },
-		"Engine":      func(fr *frame, a []value) value { return true },
+		"Freeze":       vxFreeze,
+		"Unfreeze":     func(fr *frame, a []value) value { fr.i.frozen = nil; return nil },
+		"Engine":       func(fr *frame, a []value) value { return true },
 		"WatchReentry": vxWatchReentry,
-		"Steps":       func(fr *frame, a []value) value { return fr.i.steps },
-		"DeepEqual":   vxDeepEqual,
-		"Reach":       vxReach,
-		"SameObject":  vxSameObject,
-		"IsNilPtr":    vxIsNilPtr,
-		"Fill":        vxFill,
-		"Dump":        vxDump,
+		"Steps":        func(fr *frame, a []value) value { return fr.i.steps },
+		"DeepEqual":    vxDeepEqual,
+		"Reach":        vxReach,
+		"SameObject":   vxSameObject,
+		"IsNilPtr":     vxIsNilPtr,
+		"Fill":         vxFill,
+		"Dump":         vxDump,
 	}
 }
 
@@ -463,4 +478,96 @@ func vxIsNilPtr(fr *frame, a []value) value {
 		return p == nil
 	}
 	return false
+}
+
+// fdIntInfo remembers that an integer term is table[sel] (finite domain), so that
+// pure functions of it can be lifted row-wise instead of forking.
+type fdIntInfo struct {
+	sel *Term
+	tab []int64
+}
+
+// liftPure evaluates a pure string-valued method of a finite-domain integer on
+// every table row (concretely, by the real code) and returns a finite-domain string.
+func (i *interpreter) liftPure(fr *frame, fn *ssa.Function, recv sym) (value, bool) {
+	info, ok := i.fdInts[recv.t]
+	if !ok {
+		return nil, false
+	}
+	tab := make([]string, len(info.tab))
+	for k, v := range info.tab {
+		key := fmt.Sprintf("%s/%d", fn.String(), v)
+		if s, ok := i.ex.liftCache.Load(key); ok {
+			tab[k] = s.(string)
+			continue
+		}
+		r := i.liftedCall(fr, fn, []value{mkScalar(recv.k, uint64(v))})
+		s, ok := r.(string)
+		if !ok {
+			return nil, false
+		}
+		i.ex.liftCache.Store(key, s)
+		tab[k] = s
+	}
+	return &fdstr{sel: info.sel, tab: tab}, true
+}
+
+// liftPureStr lifts a pure string-valued function with exactly one finite-domain
+// string argument (all others concrete): the real code runs once per table row.
+func (i *interpreter) liftPureStr(fr *frame, fn *ssa.Function, args []value) (value, bool) {
+	if debugOn {
+		fmt.Fprintf(os.Stderr, "gosx: liftPureStr %s args=%s\n", fn.Name(), toString(tuple(args)))
+	}
+	var fd *fdstr
+	for _, a := range args {
+		switch x := a.(type) {
+		case *fdstr:
+			if fd != nil && (fd.sel != x.sel || len(fd.tab) != len(x.tab)) {
+				return nil, false
+			}
+			fd = x
+		case sym, *symstr:
+			if debugOn {
+				fmt.Fprintf(os.Stderr, "gosx: no lift of %s: arg %T\n", fn, a)
+			}
+			return nil, false
+		}
+	}
+	if fd == nil {
+		return nil, false
+	}
+	tab := make([]string, len(fd.tab))
+	for k := range fd.tab {
+		key := fn.String() + "/"
+		cp := append([]value(nil), args...)
+		for j, a := range args {
+			if x, ok := a.(*fdstr); ok {
+				cp[j] = x.tab[k]
+			}
+			key += fmt.Sprintf("%q|", fmt.Sprint(cp[j]))
+		}
+		if s, ok := i.ex.liftCache.Load(key); ok {
+			tab[k] = s.(string)
+			continue
+		}
+		r := i.liftedCall(fr, fn, cp)
+		s, ok := r.(string)
+		if !ok {
+			if debugOn {
+				fmt.Fprintf(os.Stderr, "gosx: no lift of %s: result %T\n", fn, r)
+			}
+			return nil, false
+		}
+		i.ex.liftCache.Store(key, s)
+		tab[k] = s
+	}
+	return &fdstr{sel: fd.sel, tab: tab}, true
+}
+
+func (i *interpreter) liftedCall(fr *frame, fn *ssa.Function, args []value) value {
+	i.lifting++
+	saved := i.steps
+	i.steps = -(1 << 40) // row-wise evaluation of a pure callee does not count against the path budget
+	defer func() { i.lifting--; i.steps = saved }()
+	return callSSAraw(i, fr, fn, args)
 }
